@@ -60,6 +60,11 @@ func checkProgram(src string) {
 	if errO != nil {
 		res.Count("twin", src, false)
 		res.Dist("compile-error")
+		if strings.HasPrefix(errO.Error(), "PANIC") {
+			// the optimizer (or the compiler around it) panics on code the compiler itself produced
+			res.Violate(lib.Violation{Signature: "compile-panics", Stream: "twin", Input: replayInput{Source: src},
+				Observed: clip(errO.Error(), 300), Expected: "bytecode or a compile error", Oracle: "recover around Compiler.Compile"})
+		}
 		return
 	}
 	fo := lib.Functions(o.BC)
